@@ -82,7 +82,27 @@ class _Sets:
             return isinstance(v, (set, frozenset)) and e.id not in {a.arg for a in self.fi.node.args.args}
         if isinstance(e, ast.Attribute):
             d = dotted(e) or ""
-            return d in _set_attrs(self.ctx, self.fi)
+            if d in _set_attrs(self.ctx, self.fi):
+                return True
+            # <object>.<attr> where the object's class (parameter annotation, constructor call, with-target) declares a set-valued
+            # property / attribute of that name
+            from sa.engine.callgraph import class_of_expr
+            try:
+                ci = class_of_expr(self.ctx.p, self.fi, e.value)
+            except Exception:
+                ci = None
+            if ci is not None:
+                for c in self.ctx.p.mro(ci):
+                    m = c.methods.get(e.attr)
+                    if m is not None and any((dotted(dd) or "").split(".")[-1] in ("property", "cached_property") for dd in m.node.decorator_list):
+                        ann = norm(m.node.returns).split("[")[0].split(".")[-1].lower() if m.node.returns is not None else ""
+                        if ann in ("set", "frozenset", "abstractset"):
+                            return True
+                        rets = [r for r in walk_own(m.node) if isinstance(r, ast.Return) and r.value is not None]
+                        fake = type("F", (), {"cls": c})()
+                        if rets and all((dotted(r.value) or "") in _set_attrs(self.ctx, fake) for r in rets):
+                            return True
+            return False
         return False
 
 
@@ -574,4 +594,52 @@ def rule_stream(ctx: Ctx) -> RuleReport:
     return rep
 
 
-RULES = [rule_order, rule_nondet, rule_pure, rule_input, rule_stream]
+MUTATORS = {"append", "extend", "insert", "add", "update", "setdefault", "pop", "popitem", "clear", "remove", "discard", "sort", "reverse", "appendleft"}
+
+
+def rule_default(ctx: Ctx) -> RuleReport:
+    """A mutable default argument is created once per process: a function that writes into it carries state from one call (one
+    extraction) into the next."""
+    rep = RuleReport("C06-DEFAULT", "no function writes into a mutable default argument (state shared by all calls in the process)")
+    n = 0
+    for fi in ctx.p.all_functions():
+        if "/tests/" in fi.module.rel:
+            continue
+        a = fi.node.args
+        params = a.posonlyargs + a.args + a.kwonlyargs
+        defaults = [None] * (len(a.posonlyargs + a.args) - len(a.defaults)) + list(a.defaults) + list(a.kw_defaults)
+        for prm, d in zip(params, defaults):
+            if d is None:
+                continue
+            mutable = isinstance(d, (ast.Dict, ast.List, ast.Set, ast.ListComp, ast.DictComp, ast.SetComp)) or (isinstance(d, ast.Call) and (dotted(d.func) or "") in ("dict", "list", "set", "bytearray", "collections.defaultdict", "defaultdict", "OrderedDict", "collections.OrderedDict", "deque", "collections.deque"))
+            if not mutable:
+                continue
+            n += 1
+            nm = prm.arg
+            rebound = any(isinstance(x, ast.Assign) and any(isinstance(t, ast.Name) and t.id == nm for t in x.targets) for x in walk_own(fi.node))
+            writes = []
+            for x in walk_own(fi.node):
+                if isinstance(x, (ast.Assign, ast.AugAssign)):
+                    for t in (x.targets if isinstance(x, ast.Assign) else [x.target]):
+                        if isinstance(t, ast.Subscript) and isinstance(t.value, ast.Name) and t.value.id == nm:
+                            writes.append(x)
+                elif isinstance(x, ast.Call) and isinstance(x.func, ast.Attribute) and x.func.attr in MUTATORS and isinstance(x.func.value, ast.Name) and x.func.value.id == nm:
+                    writes.append(x)
+                elif isinstance(x, ast.Call) and any(isinstance(arg, ast.Name) and arg.id == nm for arg in list(x.args) + [k.value for k in x.keywords]) and resolve_call(ctx.p, fi, x).funcs:
+                    writes.append(x)  # handed on to project code that may keep / fill it
+            rep.unit(fi.key)
+            if writes and not rebound:
+                rep.fail(Finding("C06-DEFAULT", fi.module.rel, fi.qual, f"{nm}={norm(d)}: {short(writes[0], 60)}",
+                                 f"parameter `{nm}` defaults to one shared `{norm(d)}` object and the function writes into it (`{short(writes[0], 50)}`): what one extraction stores there is seen by every later one in the process", line=writes[0].lineno))
+            else:
+                rep.ok({"fn": fi.qual, "mutable_default": f"{nm}={norm(d)}", "written": False})
+    rep.info.append(f"{n} mutable default arguments in the package")
+    if n == 0:
+        # nothing to judge today: keep one positive self-check so that the recogniser is exercised on every run
+        probe = ast.parse("def f(x, cache={}):\n    cache[x] = 1\n").body[0]
+        ok = any(isinstance(t, ast.Subscript) for st in probe.body for t in getattr(st, "targets", []))
+        rep.ok({"recogniser_probe": "def f(x, cache={}): cache[x] = 1 -> recognised", "ok": ok})
+    return rep
+
+
+RULES = [rule_order, rule_nondet, rule_pure, rule_input, rule_stream, rule_default]
